@@ -1,5 +1,6 @@
 import Pk.Parse
 import Pk.Inst
+import Pk.Lift
 /-! Line-protocol driver for the Mathlib-free model: one request per line on stdin, one reply per
 line on stdout.  The harness (`/verif/harness`) sends the same cases to the real pykoop and diffs. -/
 open Pk
@@ -74,6 +75,55 @@ def cmdUtil : P String := do
     pure ("ok " ++ showMat toString (stripIC m X))
   | _ => throw s!"bad util {what}"
 
+/-- `regargs nx nu <stage> <mat>`: what `KoopmanPipeline.fit` hands its regressor — `shift_episodes` of the
+lifted data with `n_inputs = n_inputs_out_` -/
+def cmdRegArgs : P String := do
+  let nx ← pNat; let nu ← pNat
+  let s ← pStage
+  let X ← pMat pInt
+  withFit nx nu s fun w => do
+    let Xt := transformFlat (rowFn intOps) s nx X
+    pure ("ok " ++ showMat toString (shiftUn Xt) ++ " | " ++ showMat toString (shiftSh (dropInputs w.2) Xt))
+
+def intCells : Cells Int := ⟨0, Int.toNat, Int.ofNat⟩
+
+def pRaw : P (Raw Int) := do
+  let r ← pNat; let c ← pNat
+  pMany r (pMany c pInt)
+
+def showRaw (X : Raw Int) : String :=
+  let w := match X with
+    | [] => 0
+    | r :: _ => r.length
+  s!"{X.length} {w} " ++ " ".intercalate (X.map fun r => " ".intercalate (r.map toString))
+
+/-- `lift <helper> <fitEp 0|1> <callEp n|0|1> nx nu <stage> <raw matrix>` -/
+def cmdLift : P String := do
+  let helper ← tok
+  let fitEp ← pBool
+  let ce ← tok
+  let callEp : Option Bool := match ce with
+    | "n" => none
+    | "1" => some true
+    | _ => some false
+  let nx ← pNat; let nu ← pNat
+  let s ← pStage
+  let X ← pRaw
+  withFit nx nu s fun _ => do
+    let env := rowFn intOps
+    let F : Fitted Kind := ⟨s, (nx, nu), fitEp⟩
+    let out ← match helper with
+      | "lift" => pure (liftRaw intCells env F callEp X)
+      | "retract" => pure (retractRaw intCells env F callEp X)
+      | "lift_state" => pure (liftState intCells env F callEp X)
+      | "retract_state" => pure (retractState intCells env F callEp X)
+      | "lift_input" => pure (liftInput intCells env F callEp X)
+      | "retract_input" => pure (retractInput intCells env F callEp X)
+      | "transform" => pure (transformRaw intCells env F X)
+      | "inverse" => pure (inverseRaw intCells env F X)
+      | _ => throw s!"bad helper {helper}"
+    pure ("ok " ++ showRaw out)
+
 def dispatch : P String := do
   let cmd ← tok
   match cmd with
@@ -86,6 +136,8 @@ def dispatch : P String := do
     | "str" => cmdTr domStr cmd
     | _ => throw s!"bad mode {mode}"
   | "util" => cmdUtil
+  | "lift" => cmdLift
+  | "regargs" => cmdRegArgs
   | _ => throw s!"bad command {cmd}"
 
 def handle (line : String) : String :=
